@@ -17,7 +17,8 @@ EXPLANATION = (
     "now_or_never) precedes the drain of the flow table; (R4) Drop for Multiplexor signals id 0 and the consumer "
     "returns on 0; (R5) public Multiplexor methods map queue/oneshot closure to Error::Closed.")
 EXPLANATION_ADDED = 'R1 also orders the source dispatch before the drain; R2 requires the flush loop to await recv() until the closed queue is empty; (R6) no await on a bounded application queue is reachable in the wind-down; (R7) the send-loop select arm never holds a dequeued message across an await (cancel safety).'
-EXPLANATION = EXPLANATION + " Added while testing against seeded changes: " + EXPLANATION_ADDED
+EXPLANATION_ADDED2 = ' (R8) ack-failure-stops-handoff (why the accept queue cannot hold up the wind-down); (R9) Close/Ping/Pong/Binary classification, dispatcher call-site constants, the wind-down dispatches what it takes from the source; R1 also requires the dropped-flows queue to be closed.'
+EXPLANATION = EXPLANATION + " Added while testing against seeded changes: " + EXPLANATION_ADDED + EXPLANATION_ADDED2
 ASSUMPTIONS = ["poll_fn closures are polled by the await that follows their creation",
                "tokio mpsc close()/recv() semantics (clean shutdown) as documented"]
 NOT_DECIDED = "completion of operations racing with teardown; enumeration of cut points; timing"
